@@ -205,6 +205,17 @@ def _rs_copy_hooks():
     return h
 
 
+def _rs_refusal():
+    # key iteration over an input without keys: refused with the library's own signal before anything is drawn or yielded
+    from contracts.stages import _split_refusal
+    _, por = items_refused_clauses(lambda S: None)
+    v = Variant('items-refused', params={'with_key': 'true'}, generator=True,
+                on_yield=lambda S, value: [('I-items:nothing-is-yielded-before-the-refusal', smt.F)], post=por,
+                requires=lambda S: z3.And(smt.IDX(F(S)['input_dataset'].t), z3.Not(smt.KEYS(F(S)['input_dataset'].t))),
+                loops={'0': lambda S: smt.T, '1': lambda S: smt.T}, hooks=rng_hooks(), inline=('permutation',), props=('C03', 'C01', 'C10'))
+    return _split_refusal([v], lambda S: F(S)['input_dataset'].t)
+
+
 class ReShuffleDatasetC(ClassContract):
     cls = 'ReShuffleDataset'
     fields = _rs_fields
@@ -212,7 +223,7 @@ class ReShuffleDatasetC(ClassContract):
     def view(self, eng, st):
         return None
     methods = {
-        '__iter__': [_rs_iter_variant(False, False), _rs_iter_variant(True, False), _rs_iter_variant(False, True)],
+        '__iter__': [_rs_iter_variant(False, False), _rs_iter_variant(True, False), _rs_iter_variant(False, True)] + _rs_refusal(),
         '__len__': [Variant('len', post=lambda S, o: [('C02:len-is-the-input-length',
                                                       z3.And(z3.BoolVal(o.kind == 'return'), o.value.t == smt.N(F(S)['input_dataset'].t))
                                                       if o.kind == 'return' else smt.F)], props=('C02',))],
